@@ -129,6 +129,72 @@ def table_lines(ctext):
     return out, t, flags
 
 
+TBL_IDS = {1: 'accept', 2: 'base', 3: 'chk', 4: 'def', 5: 'ec', 6: 'meta', 7: 'NUL_trans', 8: 'nxt',
+           9: 'rule_can_match_eol', 10: 'start_state_list', 11: 'transition', 12: 'acclist'}
+
+
+def parse_tables_file(path):
+    """decode a serialized-tables file with the Lean codec (fvdriver tbl-dump).
+    Returns list of sets: dict(name, version, bytes, reencode, tables=[dict(id, flags, hilen, lolen, data)])"""
+    rc, out, err = run_driver(['tbl-dump', path], timeout=120)
+    sets = []
+    for line in out.split('\n'):
+        w = line.split(' ')
+        if w[0] == 'set':
+            d = {'tables': []}
+            for kv in w[2:]:
+                if '=' in kv:
+                    k, v = kv.split('=', 1)
+                    d['n_tables' if k == 'tables' else k] = v
+            d['undecodable'] = 'undecodable' in line
+            sets.append(d)
+        elif w[0] == 'tbl' and sets:
+            i = w.index(':')
+            sets[-1]['tables'].append({'id': int(w[1]), 'flags': int(w[2]), 'hilen': int(w[3]), 'lolen': int(w[4]),
+                                       'data': [int(x) for x in w[i + 1:] if x != '']})
+    return sets
+
+
+def arrays_of_set(tset):
+    """arrays in the naming of tables_extract (yy_xxx) from a decoded set"""
+    A = {}
+    for t in tset['tables']:
+        name = TBL_IDS.get(t['id'], 'id%d' % t['id'])
+        if name == 'transition':
+            A['yy_transition_v'] = t['data'][0::2]
+            A['yy_transition_n'] = t['data'][1::2]
+        elif name == 'nxt' and t['hilen'] > 0:
+            n = t['lolen']
+            A['yy_nxt'] = [t['data'][i * n:(i + 1) * n] for i in range(t['hilen'])]
+        else:
+            A['yy_' + name] = t['data']
+    return A
+
+
+def table_lines_from_arrays(A, C):
+    kind = 'compressed'
+    if 'yy_transition_v' in A:
+        kind = 'fast'
+    elif 'yy_nxt' in A and A['yy_nxt'] and isinstance(A['yy_nxt'][0], list):
+        kind = 'full'
+    flags = dict(kind=kind, ecs=int('yy_ec' in A), mecs=int('yy_meta' in A), reject=int('yy_acclist' in A))
+    out = ['tbl ' + ' '.join('%s=%s' % kv for kv in flags.items())]
+    for k in ('YY_NUM_RULES', 'YY_JAMBASE', 'YY_JAMSTATE', 'YY_NUL_EC', 'YY_END_OF_BUFFER'):
+        if k in C:
+            out.append('const %s %d' % (k, C[k]))
+    for n in ARR_NAMES:
+        key = 'yy_' + n
+        if key not in A:
+            continue
+        v = A[key]
+        if n == 'nxt' and kind == 'full':
+            for row in v:
+                out.append('row ' + ' '.join(map(str, row)))
+        else:
+            out.append('arr %s %s' % (n, ' '.join(map(str, v))))
+    return out, flags
+
+
 def var_rules_of(t):
     """rule numbers flex treats as variable-trailing-context rules (flagged in yy_acclist)"""
     acc = t['arrays'].get('yy_acclist', [])
